@@ -118,7 +118,7 @@ def chain_bad(r, i: int) -> bool:
     size there (C14: never a different qubit), or the size itself is undefined"""
     if size_bad(r):
         return True
-    if i >= size_of(r):
+    if i < 0 or i >= size_of(r):
         return True
     if r._alias_from is None:
         return False
@@ -191,7 +191,7 @@ class ResolveQubit:
         return is_int(result[1]) and result[1] == phys(self, idx)
 
     def ensures_root_fundamental(self, idx, context, result):
-        return wf_reg(result[0]) and result[0]._alias_from is None and result[1] < size_of(result[0]) and not size_bad(result[0])
+        return wf_reg(result[0]) and result[0]._alias_from is None and 0 <= result[1] and result[1] < size_of(result[0]) and not size_bad(result[0])
 
     def raises_JaqalError(self, idx, context):
         return chain_bad(self, idx)
@@ -239,7 +239,7 @@ class QubitResolve:
         return is_int(result[1]) and result[1] == phys(self._alias_from, ival(self._alias_index))
 
     def ensures_root_fundamental(self, context, result):
-        return wf_reg(result[0]) and result[0]._alias_from is None and result[1] < size_of(result[0]) and not size_bad(result[0])
+        return wf_reg(result[0]) and result[0]._alias_from is None and 0 <= result[1] and result[1] < size_of(result[0]) and not size_bad(result[0])
 
     def raises_JaqalError(self, context):
         return chain_bad(self._alias_from, ival(self._alias_index))
